@@ -100,6 +100,20 @@ Theorem C06_fragment_unscale : forall lo hi x, (onp_unscale lo hi x == unscale l
 Proof. exact frag_unscale. Qed.
 Print Assumptions C06_fragment_unscale.
 
+Theorem C06_fragment_clip_and_guard : forall a lo hi k n,
+  (onp_clip a lo hi == qclip a lo hi)%Q /\ onp_rollout_guard k n = (k <? n).
+Proof. exact (fun a lo hi k n => conj (frag_clip a lo hi) (frag_rollout_guard k n)). Qed.
+Print Assumptions C06_fragment_clip_and_guard.
+
+(* the function the correspondence evaluates over several learn() calls is the per-call composition of the above *)
+Theorem C06_learns_unfold : forall ak gamma sc st reset rs r,
+  learns ak gamma sc st ((reset, rs) :: r) =
+  let st0 := if reset then col_reset sc st else st in
+  (fst (learns ak gamma sc (fst (rollouts ak gamma sc st0 rs)) r),
+   snd (rollouts ak gamma sc st0 rs) :: snd (learns ak gamma sc (fst (rollouts ak gamma sc st0 rs)) r)).
+Proof. exact learns_cons. Qed.
+Print Assumptions C06_fragment_unscale.
+
 Theorem C06_fragment_vec_flags : forall sc c,
   let st := snd (env_step sc c) in
   let o := snd (vstep1 sc c) in
